@@ -147,6 +147,12 @@ def build_harness(log, race=False):
         env["CGO_ENABLED"] = "1"
     rc, out = sh(cmd, cwd=h, env=env, timeout=900)
     log.append(out)
+    if rc == 0 and not race:
+        # the real client binary (static), used inside a chroot by the C17/C20 streams
+        rc2, out2 = sh(["go1.26.8", "build", "-o", os.path.join(B, "psa-dhcpc"), "cmd/psa-dhcpc.go"], cwd=REPO, env=GOENV, timeout=900)
+        log.append(out2)
+        if rc2 != 0:
+            return False, out2
     return rc == 0, out
 
 
